@@ -905,7 +905,7 @@ func (x *Exec) doBuiltin(st *State, ins ssa.Instruction, b *ssa.Builtin, c *ssa.
 		x.mapSet(st, "MapD:"+typeKey(mt), mkStore(d, m.one(), mkStore(mkSelect(d, m.one()), args[1].one(), tFalse)))
 		return Value{T: rt}
 	case "panic":
-		if x.nopanic {
+		if x.nopanic && !x.ctr.AllowExplicitPanic {
 			x.oblige(st, "panic", fmt.Sprint(x.ordinals[ins]), tFalse, ins.Pos(), "explicit panic reachable")
 		}
 		st.dead = true
